@@ -475,6 +475,38 @@ def rule_fragile_state(ctx, F):
     ctx.after("P10", "ts_parser__reduce:fragile-node-has-no-state", fn, frag, none, "a node marked fragile gets TS_TREE_STATE_NONE", stop_pts=[pt for pt, n in find(fn, "parent.ptr->dynamic_precedence += dynamic_precedence")])
 
 
+def rule_examined_char(ctx, F):
+    """P11: the bytes a token's recognition depended on include the *whole* character the lexer was looking at when it
+    stopped.  ts_lexer_finish reports current_position + the size of that look-ahead character (a constant smaller than
+    the longest encoding, 4 bytes, cannot be right: changing the last byte of a 3-byte character changes the character,
+    yet the token before it would be reused)."""
+    fn = ctx.need_fn(F, "ts_lexer_finish", "P11")
+    if not fn:
+        return
+    out = [p["id"] for p in fn.params if p["name"] != "self"]
+    cands = []
+    for i, nm in fn._names.items() if fn.defs(0) is not None else []:
+        pass
+    fn.defs(0)
+    defs = []
+    for vid, nm in fn._names.items():
+        for d in fn.defs(vid):
+            if isinstance(d, dict) and d.get("k") not in ("uninit", "param") and "current_position.bytes" in show(d):
+                defs.append((nm, d))
+    key = "ts_lexer_finish:examined-extent-covers-lookahead-character"
+    if not defs:
+        ctx.bad("P11", key, "ts_lexer_finish no longer derives the examined extent from the lexer's current position")
+        return
+    nm, d = defs[0]
+    txt = show(d)
+    consts = [x.get("v") for x in walk(d) if x.get("k") == "int" and isinstance(x.get("v"), int)]
+    if "lookahead_size" in txt or any(c >= 4 for c in consts):
+        ctx.ok("P11", key, "`%s = %s` spans the look-ahead character" % (nm, txt[:80]))
+    else:
+        ctx.bad("P11", key, "`%s = %s`: the examined extent ends one byte after the current position although the look-ahead character there may be up to 4 bytes long — an edit to a later byte of "
+                "that character (`abc₭ x` → `abc€ x`, last byte only) leaves the preceding token reusable and the incremental tree differs from the from-scratch tree" % (nm, txt[:60]))
+
+
 def rule_lookahead_end(ctx, F):
     """P9: the text examined for a node ends at its end + look-ahead bytes — or, when that reaches the end of
     the old document (the node was lexed against end-of-input), at infinity: a range included later on
@@ -553,6 +585,7 @@ def run(ctx):
         rule_pending(ctx, F)
         rule_lookahead_end(ctx, F)
         rule_fragile_state(ctx, F)
+        rule_examined_char(ctx, F)
         # the edit marks (has_changes) every node the reuse test must refuse — incl. column-dependent ones whose column shifted (shared with C10.P2/P3)
         import C10
         C10.rule_subtree_edit(ctx, F)
